@@ -89,12 +89,18 @@ class Runner:
         r = subprocess.run([self.bld.snoopyctl, action], env=self.env, capture_output=True, timeout=60, preexec_fn=pre)
         return r.returncode
 
-    def run(self, action, inject=None):
+    def run(self, action, inject=None, closed=None):
+        """closed: descriptor numbers the traced command is started without (strace itself keeps its own: the closing happens
+        in a small sh wrapper that then execs snoopyctl)"""
         tr = os.path.join(self.work, "trace")
         cmd = ["strace", "-f", "-o", tr]
         for inj in ([inject] if isinstance(inject, str) else (inject or [])):
             cmd += ["-e", "inject=" + inj]
-        cmd += [self.bld.snoopyctl, action]
+        if closed:
+            redir = " ".join("%d>&-" % fd if fd else "0<&-" for fd in closed)
+            cmd += ["/bin/sh", "-c", 'exec "$0" "$1" ' + redir, self.bld.snoopyctl, action]
+        else:
+            cmd += [self.bld.snoopyctl, action]
         r = subprocess.run(cmd, env=self.env, capture_output=True, timeout=60)
         with open(tr, "r", errors="replace") as f:
             lines = f.read().splitlines()
@@ -190,6 +196,20 @@ def do_scenario(arg):
                     st["exit0_after_failed_write"] += 1
             else:
                 st["inconclusive"] += 1
+            if e == ERRS[0] and nm not in ("write", "close", "openat"):
+                # the same fault when the command was started without stdout or without stderr (whatever it prints about the
+                # failure must not end up in a file that got that descriptor number); positions of write/close/openat differ in
+                # that start state and are left out
+                for closed in ((1,), (2,)):
+                    R.reset(content)
+                    rc3, l3 = R.run(action, "%s:error=%s:when=%d" % (nm, e, ordn), closed=closed)
+                    st["err_runs"] += 1
+                    if any("(INJECTED)" in x for x in l3):
+                        st["err_fired"] += 1
+                        st["faults_without_stdio"] = st.get("faults_without_stdio", 0) + 1
+                        verdict("%s-on-%s-fd%d-closed" % (e, nm, closed[0]), "%s(#%d), command started with descriptor %d closed" % (nm, ordn, closed[0]), R.get(), rc3)
+                    else:
+                        st["inconclusive"] += 1
     # a rename that fails in ways that invite a fallback (file is a mount point: EBUSY; cross-device: EXDEV; immutable: EPERM),
     # then - second fault - the process is killed before each of the system calls that follow
     for nm_r in ("rename", "renameat", "renameat2"):
